@@ -110,6 +110,9 @@ def check_histories(r, rng, n, exhaustive=False):
             ff = history_failures(small) or f
             r.violation("2D integrator: " + ff[0], dict(key='c13-history', kind='history', history=small,
                                                          failures=ff, original=h))
+    if dist['implementation raised (see C02)']:
+        r.log(f"2D histories: {dist['implementation raised (see C02)']} of {len(hists)} raised on the implementation "
+              f"(nothing produced, not a C13 matter; C02 reports legal histories that raise)")
     return dict(histories=len(hists), **dict(sorted(dist.items())))
 
 
